@@ -76,6 +76,22 @@ func ruleHelpers(c *Ctx, prop string) {
 				}
 			}
 		}
+		if why != "" && hs.name == "NewSlicer" {
+			if tw := checkNewSlicerTable(c, f); tw != "?" {
+				why = tw
+				if tw == "" {
+					c.counts["R25.helpers_by_table"]++
+				}
+			}
+		}
+		if why != "" && hs.name == "AnyToIntSlice" {
+			if tw := checkAnyToIntSliceTable(c, f); tw != "?" {
+				why = tw
+				if tw == "" {
+					c.counts["R25.helpers_by_table"]++
+				}
+			}
+		}
 		c.decide(why == "", "R25", key, c.pos(f.Pos()), "ops."+hs.name+": "+hs.doc, "ops."+hs.name+" no longer has its contract ("+hs.doc+"): "+why)
 	}
 	c.counts["R25.helpers"] = n
@@ -647,6 +663,30 @@ func checkAnyToIntSlice(c *Ctx, f *ssa.Function) string {
 	return ""
 }
 
+// checkAnyToIntSliceTable: the same contract over a finite table (lists of 0..3 token elements behind an interface
+// holding []int32 / []int64): every element, in order, converted to int and nothing else. "" when it holds, "?" when
+// the walk cannot follow.
+func checkAnyToIntSliceTable(c *Ctx, f *ssa.Function) string {
+	cov := newCover(f)
+	convs := func(trail string) bool { return trail == "" || onlyConversions(trail) }
+	// every integer element type is walked (so that all the code is seen); int64 and int32 must be converted
+	for _, k := range []types.BasicKind{types.Int64, types.Int32, types.Int16, types.Int8, types.Int, types.Uint8, types.Uint16, types.Uint32, types.Uint64, types.Float32} {
+		known, pass, why := c.elementwiseCells(f, 0, convs, cov, types.Typ[k])
+		must := k == types.Int64 || k == types.Int32
+		if !known {
+			return "?" // a list type whose conversion cannot be followed: the structural reading decides
+		}
+		if !pass && (must || !strings.HasSuffix(why, "is refused")) {
+			return "[]" + types.Typ[k].String() + ": " + why
+		}
+	}
+	if unc := cov.uncovered(c); len(unc) > 0 {
+		c.declined("table of ops.AnyToIntSlice", unc)
+		return "?"
+	}
+	return ""
+}
+
 // lenArgEquivalent returns the value whose len() bounds the loop over src: src itself.
 func lenArgEquivalent(f *ssa.Function, src ssa.Value) ssa.Value { return src }
 
@@ -1106,4 +1146,152 @@ func (c *Ctx) extractMatricesTable(f *ssa.Function) (string, bool) {
 		}
 	}
 	return "", cells > 0
+}
+
+// elementwiseTable interprets a function list -> list over inputs of 0..3 token elements: the result must have one
+// element per input element, element i derived from input element i alone, by the same operations for every i,
+// and those operations must be acceptable to the caller (allow receives the recorded trail, e.g. "|conv:int8").
+// known=false when the walk cannot follow the function to one result (the structural rule decides then).
+func (c *Ctx) elementwiseTable(f *ssa.Function, inIdx int, allow func(trail string) bool, dynElem ...types.Type) (known, pass bool, why string) {
+	cov := newCover(f)
+	known, pass, why = c.elementwiseCells(f, inIdx, allow, cov, dynElem...)
+	if known && pass {
+		if unc := cov.uncovered(c); len(unc) > 0 {
+			known = false // code no cell reached: the table does not know the function
+			c.declined("elementwise table of "+fname(f), unc)
+		}
+	}
+	return
+}
+
+func (c *Ctx) elementwiseCells(f *ssa.Function, inIdx int, allow func(trail string) bool, cov *pcover, dynElem ...types.Type) (known, pass bool, why string) {
+	if f == nil || len(f.Blocks) == 0 || inIdx >= len(f.Params) {
+		return false, false, ""
+	}
+	for n := 0; n <= 3; n++ {
+		p := &pinterp{c: c, budget: 20000, objects: true, cover: cov}
+		if len(dynElem) == 1 {
+			p.listsAreSlicesOf = dynElem[0] // the argument is an interface holding a slice of this element type
+		}
+		heap := newHeap()
+		in := make([]pval, n)
+		for i := range in {
+			in[i] = pval{k: pTok, i: int64(i)}
+		}
+		args := make([]pval, len(f.Params))
+		args[inIdx] = heap.alloc(in)
+		res, h := p.run(f, args, 0, heap)
+		if p.aborted || len(res) == 0 || h == nil {
+			return false, false, ""
+		}
+		if len(res) == 2 && len(dynElem) == 1 {
+			if nonNilKind(res[1].k) {
+				return true, false, "a list of " + dynElem[0].String() + " is refused"
+			}
+			if res[1].k != pNil {
+				return false, false, ""
+			}
+		}
+		var out []pval
+		switch res[0].k {
+		case pList:
+			out = h.lists[res[0].i]
+			if out == nil {
+				return false, false, ""
+			}
+		case pNil:
+		default:
+			return false, false, ""
+		}
+		if len(out) != n {
+			return true, false, fmt.Sprintf("%d input elements give %d output elements", n, len(out))
+		}
+		for i, e := range out {
+			if e.k != pTok {
+				if e.k == pUnknown || e.k == pPoison {
+					return false, false, ""
+				}
+				return true, false, fmt.Sprintf("output element %d of %d does not derive from the input elements", i, n)
+			}
+			if e.i != int64(i) {
+				return true, false, fmt.Sprintf("output element %d of %d derives from input element %d", i, n, e.i)
+			}
+			if e.s != out[0].s {
+				return true, false, fmt.Sprintf("output elements are computed differently (%q at 0, %q at %d)", out[0].s, e.s, i)
+			}
+			if allow != nil && !allow(e.s) {
+				return true, false, fmt.Sprintf("output element %d is not the expected function of input element %d (operations: %q)", i, i, e.s)
+			}
+		}
+	}
+	return true, true, ""
+}
+
+// onlyConversions: a trail of conversions and nothing else.
+func onlyConversions(trail string) bool {
+	for _, st := range strings.Split(trail, "|") {
+		if st != "" && !strings.HasPrefix(st, "conv:") {
+			return false
+		}
+	}
+	return trail != ""
+}
+
+// checkNewSlicerTable walks ops.NewSlicer(start, options...) for 0..3 options and reads the result through its own
+// Start / End / Step methods: start; end = options[0] or start+1; step = options[1] or 1. "?" when not followed.
+func checkNewSlicerTable(c *Ctx, f *ssa.Function) string {
+	if len(f.Params) != 2 {
+		return "?"
+	}
+	cov := newCover(f)
+	for _, start := range []int64{0, 3, 7} {
+		for n := 0; n <= 3; n++ {
+			opts := []int64{11, 5, 9}[:n]
+			heap := newHeap()
+			var ov pval = pval{k: pNil}
+			if n > 0 {
+				l := make([]pval, n)
+				for i, o := range opts {
+					l[i] = pval{k: pInt, i: o}
+				}
+				ov = heap.alloc(l)
+			}
+			p := &pinterp{c: c, budget: 20000, objects: true, cover: cov}
+			res, h := p.run(f, []pval{{k: pInt, i: start}, ov}, 0, heap)
+			if p.aborted || h == nil || len(res) != 1 || res[0].k != pObj || h.objs[res[0].i] == nil || h.objs[res[0].i].typ == nil {
+				return "?"
+			}
+			typ := h.objs[res[0].i].typ
+			var pkg *types.Package
+			if nn, ok := typ.(*types.Named); ok {
+				pkg = nn.Obj().Pkg()
+			}
+			want := map[string]int64{"Start": start, "End": start + 1, "Step": 1}
+			if n >= 1 {
+				want["End"] = opts[0]
+			}
+			if n >= 2 {
+				want["Step"] = opts[1]
+			}
+			for _, mname := range []string{"Start", "End", "Step"} {
+				m := c.prog.LookupMethod(types.NewPointer(typ), pkg, mname)
+				if m == nil || len(m.Blocks) == 0 {
+					return "?"
+				}
+				p2 := &pinterp{c: c, budget: 2000, objects: true}
+				r2, _ := p2.run(m, []pval{res[0]}, 0, h.clone())
+				if len(r2) != 1 || r2[0].k != pInt {
+					return "?"
+				}
+				if r2[0].i != want[mname] {
+					return fmt.Sprintf("NewSlicer(%d, %s...).%s() is %d, expected %d", start, fmtInts(opts), mname, r2[0].i, want[mname])
+				}
+			}
+		}
+	}
+	if unc := cov.uncovered(c); len(unc) > 0 {
+		c.declined("table of ops.NewSlicer", unc)
+		return "?"
+	}
+	return ""
 }
